@@ -52,6 +52,10 @@ CHECKS = {
   "held on the generated models: the real catalog equals, entry by entry and in source order, the catalog projected from the abstract model by an independent projector, for each model in the canonical and in random renderings; the fragment and its wildcards are listed in the evidence rule",
   "trusts the model-to-catalog projector (written from the statement and the snapshot format, calibrated on hand-written documents) and the order-preserving JSON decoder",
   "runtime monitoring: execution vs executable reference model (model-based oracle over the serialised catalog), grammar-based generation"),
+ "C05": ("exploration",
+  "held on the observed pairs: verdict and catalog bytes are equal between the canonical rendering of a generated model and its rewritten renderings (random combinations, and exactly one rewriting at each eligible position of small documents), for accepted and for rejected documents, plus newline rewriting of the positive fixtures",
+  "trusts the renderer to apply only the rewritings the statement lists at eligible positions (it renders from the model, it never re-parses)",
+  "runtime monitoring: metamorphic relation between two executions of the real code (byte equality of verdict and catalog)"),
 }
 
 def main():
